@@ -30,6 +30,34 @@ def active(idx, size):
     return (1, idx, size)
 
 
+def locks_owned(inst):
+    objs = [getattr(inst, k, None) for k in ('decider', 'tcp', 'receiver', 'producer', 'forwarder', 'handler', 'engine')]
+    objs = [o for o in objs if o is not None]
+    try:
+        objs += list(inst.decider.all_runs())
+    except Exception:   # noqa
+        pass
+    try:
+        objs += list(getattr(inst.tcp, '_devices', {}).values()) if inst.tcp is not None else []
+    except Exception:   # noqa
+        pass
+    out = []
+    for o in objs:
+        try:
+            items = list(vars(o).items())
+        except TypeError:
+            continue
+        for k, v in items:
+            owned = getattr(v, '_is_owned', None)
+            if owned is not None and hasattr(v, 'acquire'):
+                try:
+                    if owned():
+                        out.append(f'{type(o).__name__}.{k}')
+                except Exception:   # noqa
+                    pass
+    return out
+
+
 class Obs:
     """per-instance observation state used by the oracles (independent of the Lean model)."""
 
@@ -60,6 +88,12 @@ class Runner:
         for n, inst in self.c.insts.items():
             if not inst.alive:
                 continue
+            # lock balance: between two steps of the schedule nothing runs, so the driving thread owns no lock of the
+            # instance (a lock released on the normal path only would stay with it -- and stop every other thread)
+            held = locks_owned(inst)
+            if held:
+                self.fail('lock-left-held', f"between two steps the driving thread still owns {held} of instance {n}")
+                return
             o = self.obs[n]
             for (comp, halt, upd, local) in inst.drec.notifs[o.n_notifs:]:
                 for r in comp:
